@@ -72,6 +72,26 @@ CLAIMS = {
   text="Decides: every typed reader reads exactly its wire key with exactly its class and answers None otherwise (ports: get_decodable::<u16>(key).and_then(Result::ok); ip4/ip6: byte string whose length guard admits exactly {4}/{16}, copied whole; id: byte string; client_info: list of 2 or 3 strings mapped in order); get_decodable/get_raw_rlp are T::decode of content.get(key); every typed writer stores its argument under the same key with the same class through the RLP encoder (reader class = writer class per key); Builder::client_info / set_client_info store [name, version] exactly when build is None and [name, version, build] for every Some; socket getters are Some(new(ipX()?, portX()?)) and None only when a part is None; reachability flags are the disjunction of the family's two socket getters; set_socket picks the family by the socket's own address. Not decided: per-value exhaustiveness over all ports/addresses (alloy-rlp's codec).",
   note="Trusts: MIR fidelity; alloy-rlp codecs (class table); INV-RLP from C05 for exact consumption.",
   design="3/C14"),
+ "C03": dict(
+  technique="MIR panic census with per-site re-proved discharges (guard/const auto-dischargers + frozen inv/lib table), unsafe/recursion/loop-progress checks",
+  text="Decides, for all inputs and histories relative to a curated may-panic callee table: every potential panic source in every body of every analysed feature configuration (overflow/bounds Assert terminators, unwrap/expect incl. when passed as function values, Index/IndexMut, copy_from_slice, Buf::advance, split_at, core::panicking::*) is discharged on this run - automatically as `const` (array length vs constant range, constant arithmetic) or `guard` (a dominating edge predicate implies safety: is_none()==false, a length pinned to n, Header::decode(p)==Ok(h) with p untouched before p[..h.payload_length] / p.advance(h.payload_length), min(c,_) bounds) or by a frozen row of class `inv` (INV-RLP / INV-PK, re-checked here with the C05 rules: validator rows, every content.insert, keyed(k) at every commit, decode's enr_to_public) or `lib` (a named library invariant with its reason); a new site or a site whose guard no longer proves is reported with its location. Also: no hand-written unsafe, no call-graph cycle, every loop advances a std iterator / consumes input / iterates a caller-supplied iterator. Not decided: panics inside dependencies beyond the listed contracts; allocation failure; stack exhaustion.",
+  note="Trusts: MIR fidelity; the may-panic callee table (analysis/rules/c03.py) is complete for the callees used; the 12 `lib`/`inv` rows with reasons.",
+  design="3/C03"),
+ "C04": dict(
+  technique="MIR writer/reader skeleton agreement, per-leaf origin-tree rule for the stored value, class-table agreement of writers and validator with the decoder",
+  text="Decides the structural content of losslessness: the writer emits list-header, signature BYTES, seq UINT64, then (key BYTES, raw value) for every pair of the whole map and the reader consumes LIST, BYTES, UINT64, (BYTES key, one item)* - the same skeleton with equal classes; in every dispatch leaf the decoder stores alloy_rlp::encode::<T>(v) of the very value it decoded with class(T) equal to the decode class, and for unknown keys exactly header||payload (lists) or encode(payload) (strings) of the header just decoded, the choice depending on the header's list flag only; every typed writer's class is the decoder's class for its key and every raw caller value passes a validator whose per-key rows equal the decoder's; the builder's and the record's signing payloads have the same layout; the decoded record carries exactly the seq, signature and pairs it read; text and JSON forms invert each other (rules shared with C12). Not decided: byte equality on concrete inputs; injectivity of alloy-rlp's canonical encoding (library).",
+  note="Trusts: MIR fidelity; alloy-rlp 0.3.16 class table (encode after decode reproduces the canonical item).",
+  design="3/C04"),
+ "C05": dict(
+  technique="MIR typestate dataflow (keyed/signed/idd/sized) as an inductive invariant + encapsulation census + build/validator obligations",
+  text="Decides the always-valid invariant inductively for all call histories and key types: (base) decode returns Ok only behind the signature gate and build validates every caller pair with the reserved-key validator over the whole map, then adds id and public(key), signs the final payload with that same key with no later write, size-checks and assembles the record from exactly those parts; (step) at every commit of the 5 core mutators the typestate is keyed(k)=signed(k)=idd(k) for one key parameter k (signer's public key stored last in content, signed after the last seq/content write, node id from the same key) and sized, and each of the 18 wrappers only delegates to conforming mutators; (frame) all fields are private, no reachable function returns a mutable handle into a record, records are constructed only in decode/build/clone, in-place helpers (sign) are not reachable from outside; (values) every value stored in a content map is encoder output or passed the validator, whose rows equal the decoder's - hence re-acceptance by the decoder. One genuine defect is reported as a KNOWN-FINDING (D11: CombinedKey ed25519 signer shadowed by a valid secp256k1 entry).",
+  note="Trusts: MIR fidelity; sign_v4/verify_v4 of one crypto library are inverse; foreign EnrKey impls satisfy only the trait signatures. known_findings.json lists D11.",
+  design="3/C05"),
+ "C11": dict(
+  technique="role-agreement of sibling trait impls via per-library idiom tables + delegation exactness of the CombinedKey arms",
+  text="Decides the structural interchangeability conditions: both secp256k1 back-ends use the content key \"secp256k1\", the same get -> Bytes::decode -> decode_public lookup chain, the library's strict key parser on the whole entry, keccak256 over the whole message for signing and verifying, the 64-byte compact signature, the compressed wire key and the 64-byte x||y identity form; ed25519 uses its own key, the raw message and 64/32-byte forms; every CombinedKey/CombinedPublicKey method delegates to the same method of the matching variant with unchanged arguments and its lookup order is secp256k1 then ed25519; single-scheme impls read only their own constant; record and builder code reach the key type only through the EnrKey/EnrPublicKey methods. Not decided: equality of what k256 and libsecp256k1 accept/produce (hybrid/uncompressed keys, error values) - runtime behaviour of two foreign libraries.",
+  note="Trusts: MIR fidelity; k256 and libsecp256k1 implement the same SEC1/ECDSA for compressed keys.",
+  design="3/C11"),
 }
 
 checks = []
